@@ -170,6 +170,54 @@ class Resolver:
             f = f.parent
         return None, None
 
+    def _call_sites(self, target: FuncInfo):
+        """(caller, call node) pairs of the package that reach ``target``."""
+        idx = getattr(self, "_site_index", None)
+        if idx is None:
+            idx = {}
+            for g in self.repo.all_functions():
+                if isinstance(g.node, ast.Lambda):
+                    continue
+                for n in own_nodes(g.node):
+                    if isinstance(n, ast.Call):
+                        nm = n.func.attr if isinstance(n.func, ast.Attribute) else n.func.id if isinstance(n.func, ast.Name) else None
+                        if nm:
+                            idx.setdefault(nm, []).append((g, n))
+            self._site_index = idx
+        out = []
+        for g, n in idx.get(target.name, []):
+            try:
+                ts, _ = self.callees(g, n, g.cls)
+            except Exception:
+                continue
+            if target in ts:
+                out.append((g, n))
+        return out
+
+    def _from_call_sites(self, owner: FuncInfo, pname: str, depth: int) -> list[str]:
+        key = ("sites", owner.qualname, pname)
+        hit = self._memo_attr.get(key)
+        if hit is not None:
+            return hit
+        self._memo_attr[key] = []  # recursion guard
+        params = owner.params
+        out: list[str] = []
+        for g, call in self._call_sites(owner):
+            ps = list(params)
+            if owner.cls is not None and not owner.is_static and ps:
+                ps = ps[1:]
+            arg = None
+            if pname in ps and ps.index(pname) < len(call.args):
+                arg = call.args[ps.index(pname)]
+            for kw in call.keywords:
+                if kw.arg == pname:
+                    arg = kw.value
+            if arg is None or isinstance(arg, ast.Starred):
+                continue
+            out += [c for c in self.classes_of(g, arg, None, depth + 1) if c not in out]
+        self._memo_attr[key] = out
+        return out
+
     def _by_annotation(self, fi, node, recv_cls, depth) -> list[str]:
         if depth > 6:
             return []
@@ -180,6 +228,10 @@ class Resolver:
                 return [c.qualname] if c else []
             owner, ann = self._param_annotation(fi, node.id)
             if owner is not None:
+                if ann is None and owner.name.startswith("_") and not owner.name.startswith("__") and depth < 3:
+                    # an unannotated parameter of a private helper: the classes
+                    # its package call sites pass
+                    return self._from_call_sites(owner, node.id, depth)
                 return self.ann_heads(owner.module, ann)
             out = []
             f: FuncInfo | None = fi
@@ -337,7 +389,8 @@ class Resolver:
                 ff = ff.parent
             if f.id in self.local_defs(fi):
                 return [], f"<local {f.id}>"
-            q = self.repo.resolve(mi.name, f.id)
+            # code inlined from another module resolves its globals there
+            q = self.repo.resolve(getattr(f, "_origin_mod", None) or mi.name, f.id)
             return self._target_of_qual(q, f.id)
         if isinstance(f, ast.Attribute):
             d = dotted(f)
@@ -350,7 +403,7 @@ class Resolver:
                     or self._is_self(fi, ast.Name(id=head))
                 )
                 if not is_local:
-                    q = self.repo.resolve(mi.name, d)
+                    q = self.repo.resolve(getattr(f, "_origin_mod", None) or mi.name, d)
                     if q is not None:
                         t, name = self._target_of_qual(q, d)
                         if t or not q.startswith(self.repo.package):
